@@ -2,9 +2,11 @@ package main
 
 import (
 	"fmt"
+	"os"
 	"reflect"
 	"runtime"
 	"strings"
+	"time"
 
 	flags "github.com/jessevdk/go-flags"
 	"github.com/jessevdk/go-flags/simrt"
@@ -155,16 +157,19 @@ func (e *InjectedErr) Error() string {
 }
 
 type RunCtx struct {
-	b      *Built
-	sc     *Scenario
-	out    *Outcome
-	calls  []Call
-	counts map[string]int
-	errs   map[int]error
-	nextID int
+	bytesSeen int64 // bytes of input the boot has taken in so far (argv, INI text, stored values)
+	b         *Built
+	sc        *Scenario
+	out       *Outcome
+	calls     []Call
+	counts    map[string]int
+	errs      map[int]error
+	nextID    int
 }
 
 var cur *RunCtx
+
+var maxTicks = map[string]int64{}
 
 // opsExecuted counts operations actually run by Execute (evidence).
 var opsExecuted int
@@ -256,16 +261,38 @@ func isSimPanic(r interface{}) bool {
 
 const defaultBudget = 20_000_000
 
-func opBudget(op *Op) int64 {
-	if op.Budget > 0 {
-		return op.Budget
-	}
-	n := int64(0)
+// opBytes: how many bytes of input an operation brings into the boot.
+func opBytes(op *Op) int64 {
+	n := int64(len(op.Data)) + int64(len(op.Text)) + 1
 	for _, a := range op.Argv {
 		n += int64(len(a)) + 1
 	}
-	n += int64(len(op.Data))
-	return 5_000_000 + 2000*n
+	if op.Val != nil {
+		n += vBytes(*op.Val)
+	}
+	return n
+}
+
+func vBytes(v V) int64 {
+	n := int64(len(v.T)) + 1
+	for _, x := range v.L {
+		n += vBytes(x)
+	}
+	for _, x := range v.K {
+		n += vBytes(x)
+	}
+	return n
+}
+
+// opBudget is the loop-step budget of one operation: generous for the real
+// code (which is linear in the bytes it has been given, with a measured constant
+// below 40 steps per byte and below 20 000 steps of fixed cost), small enough
+// that a loop which stops advancing is cut off before its cost grows.
+func opBudget(op *Op, bootBytes int64) int64 {
+	if op.Budget > 0 {
+		return op.Budget
+	}
+	return 400_000 + 400*bootBytes
 }
 
 // Execute runs the scenario under one schedule. It is a pure function of
@@ -350,7 +377,9 @@ func Execute(sc *Scenario, sched *simrt.Schedule) (out *Outcome) {
 		ctx.calls = nil
 		w.Fd1.Data, w.Fd2.Data = nil, nil
 		w.Ticks = 0
-		w.TickBudget = opBudget(op)
+		ctx.bytesSeen += opBytes(op)
+		w.TickBudget = opBudget(op, ctx.bytesSeen)
+		w.WallDeadline = time.Now().Add(8 * time.Second).UnixNano()
 		if op.Kind == "iniread" && op.SrcBack > 0 && len(out.Ops) >= op.SrcBack {
 			cp := *op
 			cp.Data = out.Ops[len(out.Ops)-op.SrcBack].Out
@@ -359,6 +388,16 @@ func Execute(sc *Scenario, sched *simrt.Schedule) (out *Outcome) {
 		runOp(w, b, op, &res)
 		opsExecuted++
 		res.Ticks = w.Ticks
+		if os.Getenv("SIM_TICKSTATS") != "" {
+			n := int64(len(op.Data)) + 1
+			for _, a := range op.Argv {
+				n += int64(len(a)) + 1
+			}
+			if w.Ticks > maxTicks[op.Kind] {
+				maxTicks[op.Kind] = w.Ticks
+				fmt.Fprintf(os.Stderr, "TICKS %s %d bytes=%d boot-bytes=%d\n", op.Kind, w.Ticks, n, ctx.bytesSeen)
+			}
+		}
 		res.Fd1, res.Fd2 = BStr(w.Fd1.Data), BStr(w.Fd2.Data)
 		res.Calls = ctx.calls
 		res.Values = b.snapshot()
